@@ -90,9 +90,10 @@ def sim_delayed(f):
 
 # --------------------------------------------------------------------------- sqlite
 class ConnProxy:
-    def __init__(self, real, name):
+    def __init__(self, real, name, busy=5.0):
         self._r = real
         self._name = name
+        self._busy = busy          # the busy time-out the SUT asked for (sqlite3.connect's timeout=, default 5 s), virtual
         self._closed = False
         self._dml_ok = False
 
@@ -179,20 +180,26 @@ class CurProxy:
                     sim.stat('sql_error')
                     raise
                 sim.stat('lock_conflict')
+                busy = self._c._busy
                 if not sim.active():
-                    # serial code meeting a lock: nobody can release it in virtual time
+                    # serial code meeting a lock: only a foreign holder (another process, fault kind foreign_lock) can have it
+                    fl = sim.foreign_lock
+                    if fl is not None and fl[1] <= sim.now + busy:
+                        sim.now = max(sim.now, fl[1])
+                        release_foreign_lock(sim)
+                        continue            # the busy handler succeeded within the time-out
                     sim.ev('busy_timeout')
                     sim.stat('busy_timeout')
-                    sim.now += 5.0
+                    sim.now += busy
                     raise
                 if start is None:
                     start = sim.now
-                if sim.now - start >= 5.0:
+                if sim.now - start >= busy:
                     sim.stat('busy_timeout')
                     sim.ev('busy_timeout')
                     raise
                 sim.ev('lock_wait')
-                sim.block_on_lock(start + 5.0)
+                sim.block_on_lock(start + busy)
 
     def executemany(self, sql, seq):
         for a in seq:
@@ -222,9 +229,37 @@ def sim_connect(db, *a, **k):
     sim.ev('sql', 'connect')
     sim.yield_point('connect', 0.0)
     sim.stat('connects')
-    k['timeout'] = 0
+    busy = k.get('timeout', a[0] if a else 5.0)
+    try:
+        busy = max(0.0, float(busy))
+    except (TypeError, ValueError):
+        busy = 5.0
+    if a:
+        a = (0,) + tuple(a[1:])
+    else:
+        k['timeout'] = 0       # libsqlite3 never sleeps; the busy handler is modelled in virtual time with the SUT's time-out
     k.setdefault('check_same_thread', False)
-    return ConnProxy(_sq.connect(db, *a, **k), os.path.basename(str(db)))
+    return ConnProxy(_sq.connect(db, *a, **k), os.path.basename(str(db)), busy)
+
+
+def take_foreign_lock(sim, path, hold):
+    """fault kind foreign_lock: another process holds the database exclusively for `hold` virtual seconds"""
+    c = _sq.connect(path, timeout=0, isolation_level=None)
+    c.execute('BEGIN EXCLUSIVE')
+    sim.foreign_lock = (c, sim.now + hold)
+    sim.stat('foreign_lock')
+    sim.ev('foreign_lock', hold)
+
+
+def release_foreign_lock(sim):
+    fl = sim.foreign_lock
+    if fl is not None:
+        sim.foreign_lock = None
+        try:
+            fl[0].execute('ROLLBACK')
+        finally:
+            fl[0].close()
+        sim.ev('foreign_release')
 
 
 sqlproxy = types.SimpleNamespace(
